@@ -24,7 +24,7 @@ TAG_SWARM = "C18/swarm"
 
 TIERS = {
     "quick": dict(enum_scenarios=16, stdio_sites=6, swarm=400, real_lli=12, crash=120),
-    "thorough": dict(enum_scenarios=120, stdio_sites=40, swarm=80000, real_lli=300, crash=8000, real_clang=150, render=1800, verbose_large=300, overlap=600),
+    "thorough": dict(enum_scenarios=120, stdio_sites=40, swarm=80000, real_lli=300, crash=8000, real_clang=150, render=1800, verbose_large=300, overlap=600, rerun=1500),
 }
 
 ESC = b"\x1b"
@@ -774,7 +774,7 @@ def script_grid():
 FS_VARIANTS = ["artefact_is_directory", "artefact_symlink_to_devfull", "out_dir_through_regular_file", "source_is_directory",
                "source_symlink_loop", "stdout_devfull", "stdout_closed", "config_is_directory",
                "silent_stdout_devfull", "silent_verbose_stdout_devfull", "silent_stdout_closed",
-               "absolute_input", "colliding_artefact_names"]
+               "absolute_input", "colliding_artefact_names", "env_backend_not_utf8"]
 
 
 def _fs_variant_job(args):
@@ -838,6 +838,15 @@ def _fs_variant_job(args):
         sc["modules"] = list(sc["inputs"])
         sc["locate_by_module_id"] = True
         sc["may_refuse"] = True     # a refusal (exit 1 with a message) is as faithful as two artefacts
+        expect_fail = None
+    elif variant == "env_backend_not_utf8":
+        # the environment names a backend whose name is not valid UTF-8: run that one, or fail - never another one
+        if sub != "emit":
+            name = "caf\udce9be"
+            sc["env"]["PENNE_LLI" if sub == "run" else "PENNE_BACKEND"] = name
+            sc["stubs"] = sorted(set(sc["stubs"]) | {name})
+            sc["backend_id"] = name
+            sc["may_refuse"] = True
         expect_fail = None
     elif variant.startswith("silent_"):
         # nothing is written to stdout under --silent, so an unwritable stdout
@@ -911,6 +920,37 @@ def _crash_restart_job(args):
     res["trace_hashes"] = sorted(res["trace_hashes"])
     res["branches"] = sorted(res["branches"])
     return res
+
+
+def _rerun_job(args):
+    """The same command twice in the same directory (what a user does after
+    looking at the output): the second run finds the artefacts, directories and
+    executables of the first and must be judged like it - same status, same
+    artefacts, the backend run again."""
+    seed, i = args
+    rng = rng_for(seed, "C18/rerun", i)
+    sub = rng.choice(["emit", "emit", "run", "build"])
+    sc = make_scenario(rng, sub, rng.choice(["valid_multi", "valid_single", "with_core", "with_core", "package_only"]),
+                       {"out_dir": rng.choice(["dot", "dot", "fresh", "nested", "spaced", "absent"]), "script": {"read": "all", "exit": 0},
+                        "order": "parent_first", "config": "none", "cell": (0, 0, 0), "wasm": False})
+    sc["name"] = "rerun%d:%s:%s" % (i, sc["sub"], sc["input_kind"])
+    root = os.path.join(work_root(), "C18", "w%d" % i)
+    viol = [{"class": c, "detail": d, "scenario": sc_json(sc), "plan": [], "fault": "rerun"} for c, d in rerun_verdict(sc, root)]
+    return {"violations": viol, "runs": 3}
+
+
+def rerun_verdict(sc, root):
+    census = run_census(sc, os.path.join(root, "census"))
+    wd = os.path.join(root, "run")
+    first = exec_scenario(sc, wd, keep=True)
+    again = exec_scenario(sc, wd, restart=True)
+    v, _calls, _ = judge(sc, again, census, "rerun", None)
+    out = [(cls, "second run in the same directory: %s" % d) for cls, d in v]
+    if not v and (again["status"], again["artefacts"]) != (first["status"], first["artefacts"]):
+        out.append(("rerun_differs", "second run in the same directory: %s, first %s; artefacts %s" %
+                    (again["status"], first["status"], "equal" if again["artefacts"] == first["artefacts"] else "differ")))
+    shutil.rmtree(root, ignore_errors=True)
+    return out
 
 
 def _render_grid_job(args):
@@ -1255,8 +1295,8 @@ def minimise(v):
 
 def _min_job(v):
     set_min_budget()
-    if v.get("fault") == "overlap":
-        # a pair of invocations under one fixed schedule: replayed from its seed and index
+    if v.get("fault") in ("overlap", "rerun"):
+        # a pair of invocations (under one fixed schedule / one after the other): replayed as a pair
         m, ok = v, False
     else:
         m, ok = minimise(v)
@@ -1353,6 +1393,11 @@ def run(tier, seed):
         runs += res["runs"]
         clang_runs += 1
         raw.extend(res["violations"])
+    rerun_pairs = 0
+    for res in parallel_map(_rerun_job, [(seed, i) for i in range(cfg.get("rerun", 40))]):
+        runs += res["runs"]
+        rerun_pairs += 1
+        raw.extend(res["violations"])
     overlap_runs = overlap_reached = 0
     for res in parallel_map(_overlap_job, [(seed, i) for i in range(cfg.get("overlap", 24))]):
         runs += res["runs"]
@@ -1392,6 +1437,7 @@ def run(tier, seed):
         "crash_restart_runs": crash_done,
         "real_lli_cross_checks": lli_runs,
         "real_clang_end_to_end_builds": clang_runs,
+        "reruns_in_the_same_directory": rerun_pairs,
         "overlapping_invocation_pairs": overlap_runs,
         "overlapping_invocation_pairs_that_reached_the_gate": overlap_reached,
         "fault_kinds_configured": configured,
@@ -1431,6 +1477,15 @@ def replay(record):
     plan = record["plan"]
     root = os.path.join(work_root(), "C18", "replay-%d" % os.getpid())
     census = run_census(sc, os.path.join(root, "c"))
+    if record.get("fault") == "rerun":
+        v = rerun_verdict(sc, root)
+        for c, d in v:
+            print("replay: %s: %s" % (c, d[:400]))
+        if any(c == record["observed"]["class"] for c, _ in v):
+            print("VIOLATION property=%s replay=%s" % (PROP, record.get("_path", "?")))
+            return 1
+        print("replay: recorded class %s not reproduced" % record["observed"]["class"])
+        return 1 if v else 0
     if record.get("fault") == "crash_restart":
         exec_scenario(sc, os.path.join(root, "r"), plan=plan, keep=True)
         obs = exec_scenario(sc, os.path.join(root, "r"), restart=True)
